@@ -174,7 +174,7 @@ theorem isAlpha_nameChar (c : Nat) (h : isAlpha c = true) : nameChar c = true :=
 
 theorem isAlpha_not_space (c : Nat) (h : isAlpha c = true) : isSpace c = false := by
   simp only [isAlpha, isSpace, Bool.or_eq_true, Bool.and_eq_true, decide_eq_true_eq,
-    beq_iff_eq, Bool.or_eq_false_iff, beq_eq_false_iff_ne] at *
+    Bool.or_eq_false_iff, beq_eq_false_iff_ne] at *
   omega
 
 theorem validName_cons (n : Str) (h : validName n = true) :
@@ -329,5 +329,234 @@ theorem takeAttrs_pieces (ps : List APiece) (hok : ∀ a ∈ ps, a.ok) (fuel : N
       have t := attrs_tail ps rest (fun x hx => hok x (by simp [hx]))
       rw [e, List.length_cons, ← Nat.add_assoc, takeAttrs_bare _ _ _ ha t.1 t.2, ih']
       simp [APiece.tok]
+
+
+/-! ### tokenizer steps -/
+
+theorem tokenize_nil (fuel : Nat) : tokenize (fuel + 1) [] = some [] := by simp [tokenize]
+
+theorem tokenize_cmt_t (fuel : Nat) (rest : Str) :
+    tokenize (fuel + 1) (lit "<!--t-->" ++ rest) = (tokenize fuel rest).map (Token.comment (lit "t") :: ·) := by
+  simp [lit_cmt_t, lit_t, tokenize, takeComment]
+
+theorem tokenize_cmt_end (fuel : Nat) (rest : Str) :
+    tokenize (fuel + 1) (lit "<!-->" ++ rest) = (tokenize fuel rest).map (Token.comment [] :: ·) := by
+  simp [lit_cmt_end, tokenize]
+
+theorem tokenize_marker (fuel : Nat) (rest : Str) :
+    tokenize (fuel + 1) (lit "<!--/-->" ++ rest) = (tokenize fuel rest).map (Token.comment (lit "/") :: ·) := by
+  simp [lit_marker, lit_slash, tokenize, takeComment]
+
+theorem tokenize_text_step (fuel : Nat) (raw r : Str) (hne : raw ≠ []) (hlt : 60 ∉ raw) :
+    tokenize (fuel + 1) (raw ++ 60 :: r)
+      = (tokenize fuel (60 :: r)).map (Token.text (decode raw) :: ·) := by
+  cases raw with
+  | nil => exact absurd rfl hne
+  | cons c cs =>
+    have hc : c ≠ 60 := fun h => hlt (by simp [h])
+    have ht := takeText_append (c :: cs) r hlt
+    rw [List.cons_append] at ht ⊢
+    rw [tokenize.eq_def]
+    split
+    · simp at *
+    · simp at *
+    · simp at *; omega
+    · simp at *; omega
+    · simp at *; omega
+    · rw [ht]; simp; congr 2; omega
+
+theorem tokenize_text_end (fuel : Nat) (raw : Str) (hne : raw ≠ []) (hlt : 60 ∉ raw) :
+    tokenize (fuel + 1) raw = (tokenize fuel []).map (Token.text (decode raw) :: ·) := by
+  cases raw with
+  | nil => exact absurd rfl hne
+  | cons c cs =>
+    have hc : c ≠ 60 := fun h => hlt (by simp [h])
+    have ht := takeText_all (c :: cs) hlt
+    rw [tokenize.eq_def]
+    split
+    · simp at *
+    · simp at *
+    · simp at *; omega
+    · simp at *; omega
+    · simp at *; omega
+    · rw [ht]; simp; congr 2; omega
+
+
+theorem tokenize_endTag (fuel : Nat) (tag rest : Str) (hv : validName tag = true) :
+    tokenize (fuel + 1) (60 :: 47 :: (tag ++ 62 :: rest))
+      = (tokenize fuel rest).map (Token.endTag tag :: ·) := by
+  obtain ⟨c, cs, rfl, hc, hall⟩ := validName_cons tag hv
+  have hne := isAlpha_ne c hc
+  have hn := takeName_append (c :: cs) 62 rest (fun x hx => nameChar_not_delim x (hall x hx)) (by decide)
+  rw [List.cons_append] at hn ⊢
+  rw [tokenize.eq_def]
+  split
+  · simp at *
+  · simp at *
+  · simp at *
+  · rename_i heq1 heq2
+    simp only [List.cons.injEq, true_and] at heq2
+    obtain ⟨rfl, rfl⟩ := heq2
+    simp only [hc, ↓reduceIte, hn, skipSpace_cons_of_not_space 62 _ (by decide : isSpace 62 = false)]
+    congr 2; omega
+  · simp at *
+    rename_i h1 _ h2; exact absurd h2.2.symm (h1 c _ h2.1.symm)
+  · simp at *
+
+theorem APiece.render_length_pos (a : APiece) : 1 ≤ a.render.length := by
+  cases a <;> simp [APiece.render]
+
+theorem attrs_length_le (ps : List APiece) : ps.length ≤ (ps.flatMap APiece.render).length := by
+  induction ps with
+  | nil => simp
+  | cons a ps ih =>
+    have := a.render_length_pos
+    simp only [List.flatMap_cons, List.length_append, List.length_cons]
+    omega
+
+theorem tokenize_startTag (fuel : Nat) (tag : Str) (ps : List APiece) (rest : Str)
+    (hv : validName tag = true) (hok : ∀ a ∈ ps, a.ok) :
+    tokenize (fuel + 1) (60 :: (tag ++ (ps.flatMap APiece.render ++ 62 :: rest)))
+      = (tokenize fuel rest).map (Token.startTag tag (ps.map APiece.tok) :: ·) := by
+  obtain ⟨c, cs, rfl, hc, hall⟩ := validName_cons tag hv
+  have hne := isAlpha_ne c hc
+  obtain ⟨⟨d, r, hR, hd⟩, -⟩ := attrs_tail ps rest hok
+  have hn := takeName_append (c :: cs) d r (fun x hx => nameChar_not_delim x (hall x hx)) hd
+  have hlen := attrs_length_le ps
+  have hta := takeAttrs_pieces ps hok ((ps.flatMap APiece.render ++ 62 :: rest).length - ps.length) rest
+  have hfl : (ps.flatMap APiece.render ++ 62 :: rest).length - ps.length + ps.length + 1
+      = (ps.flatMap APiece.render ++ 62 :: rest).length + 1 := by
+    simp only [List.length_append, List.length_cons]; omega
+  rw [hfl] at hta
+  rw [hR] at hta ⊢
+  rw [List.cons_append] at hn ⊢
+  rw [tokenize.eq_def]
+  split
+  · simp at *
+  · simp at *
+  · simp at *; omega
+  · simp at *; omega
+  · rename_i heq1 heq2
+    simp only [List.cons.injEq, true_and] at heq2
+    obtain ⟨rfl, rfl⟩ := heq2
+    simp only [hc, ↓reduceIte, hn, hta]
+    congr 2; omega
+  · simp at *
+
+
+theorem escapeText_nil : escapeText [] = [] := rfl
+
+/-! ### text runs: merging adjacent texts with a pending prefix -/
+
+def emitG {α : Type} (mk : Str → α) (p : Str) : List α := if p.isEmpty then [] else [mk p]
+
+/-- `runsG get mk p l`: walk `l` with pending text `p`; texts are appended to the pending text, any
+other item first flushes the pending text. Result: the items emitted and the final pending text. -/
+def runsG {α : Type} (get : α → Option Str) (mk : Str → α) : Str → List α → List α × Str
+  | p, [] => ([], p)
+  | p, x :: r =>
+    match get x with
+    | some a => runsG get mk (p ++ a) r
+    | none => (emitG mk p ++ x :: (runsG get mk [] r).1, (runsG get mk [] r).2)
+
+theorem runsG_nil {α : Type} (get : α → Option Str) (mk : Str → α) (p : Str) :
+    runsG get mk p [] = ([], p) := by simp [runsG]
+
+theorem runsG_cons_some {α : Type} (get : α → Option Str) (mk : Str → α) (p : Str) (x : α) (r : List α)
+    (a : Str) (h : get x = some a) : runsG get mk p (x :: r) = runsG get mk (p ++ a) r := by
+  simp [runsG, h]
+
+theorem runsG_cons_none {α : Type} (get : α → Option Str) (mk : Str → α) (p : Str) (x : α) (r : List α)
+    (h : get x = none) :
+    runsG get mk p (x :: r) = (emitG mk p ++ x :: (runsG get mk [] r).1, (runsG get mk [] r).2) := by
+  simp [runsG, h]
+
+theorem runsG_append {α : Type} (get : α → Option Str) (mk : Str → α) (xs ys : List α) (p : Str) :
+    runsG get mk p (xs ++ ys)
+      = ((runsG get mk p xs).1 ++ (runsG get mk (runsG get mk p xs).2 ys).1,
+         (runsG get mk (runsG get mk p xs).2 ys).2) := by
+  induction xs generalizing p with
+  | nil => simp [runsG]
+  | cons x xs ih =>
+    cases h : get x with
+    | some a => simp only [List.cons_append, runsG_cons_some get mk _ _ _ a h, ih]
+    | none => simp only [List.cons_append, runsG_cons_none get mk _ _ _ h, ih, List.append_assoc, List.cons_append]
+
+def Token.getText : Token → Option Str
+  | .text s => some s
+  | _ => none
+
+def HNode.getText : HNode → Option Str
+  | .text s => some s
+  | _ => none
+
+abbrev runsT := runsG Token.getText Token.text
+abbrev emitT := emitG Token.text
+abbrev runsN := runsG HNode.getText HNode.text
+abbrev emitN := emitG HNode.text
+
+/-! ### pieces: source string / token pairs -/
+
+abbrev Piece := Str × Token
+
+def srcOf (ps : List Piece) : Str := ps.flatMap (·.1)
+
+theorem srcOf_cons (x : Piece) (ps : List Piece) : srcOf (x :: ps) = x.1 ++ srcOf ps := by simp [srcOf]
+theorem srcOf_append (a b : List Piece) : srcOf (a ++ b) = srcOf a ++ srcOf b := by simp [srcOf]
+theorem srcOf_nil : srcOf [] = [] := rfl
+
+/-- a piece is good if it is an escaped text, or a non-text token whose source starts with `<` and
+is consumed by exactly one tokenizer step -/
+def GoodPiece (x : Piece) : Prop :=
+  (∃ t, x = (escapeText t, Token.text t)) ∨
+  (x.2.getText = none ∧ (∃ r, x.1 = 60 :: r) ∧
+    ∀ fuel rest, tokenize (fuel + 1) (x.1 ++ rest) = (tokenize fuel rest).map (x.2 :: ·))
+
+theorem Option.map_map_cons {α : Type} (o : Option (List α)) (a : List α) (b : List α) :
+    (o.map (b ++ ·)).map (a ++ ·) = o.map ((a ++ b) ++ ·) := by
+  cases o <;> simp
+
+/-- tokenizing the source of good pieces, with pending (escaped) text `p` in front and any
+continuation behind, yields the merged tokens and leaves the final pending text -/
+theorem tokenize_pieces (ps : List Piece) (hg : ∀ x ∈ ps, GoodPiece x) :
+    ∀ (p : Str) (fuel : Nat) (rest : Str),
+      tokenize (fuel + (runsT p (ps.map (·.2))).1.length) (escapeText p ++ (srcOf ps ++ rest))
+        = (tokenize fuel (escapeText (runsT p (ps.map (·.2))).2 ++ rest)).map
+            ((runsT p (ps.map (·.2))).1 ++ ·) := by
+  induction ps with
+  | nil => intro p fuel rest; simp [runsG, srcOf]
+  | cons x ps ih =>
+    intro p fuel rest
+    have ih' := ih (fun y hy => hg y (by simp [hy]))
+    rcases hg x (by simp) with ⟨t, rfl⟩ | ⟨hnt, ⟨r, hr⟩, hstep⟩
+    · have h1 : runsT p (((escapeText t, Token.text t) :: ps).map (·.2)) = runsT (p ++ t) (ps.map (·.2)) := by
+        simp only [List.map_cons]; exact runsG_cons_some _ _ _ _ _ t rfl
+      rw [h1, srcOf_cons]
+      have := ih' (p ++ t) fuel rest
+      rw [escapeText_append, List.append_assoc] at this
+      rw [List.append_assoc]; exact this
+    · obtain ⟨src, tok⟩ := x
+      simp only at hnt hr hstep
+      subst hr
+      have h1 : runsT p (((60 :: r, tok) :: ps).map (·.2))
+          = (emitT p ++ tok :: (runsT [] (ps.map (·.2))).1, (runsT [] (ps.map (·.2))).2) := by
+        simp only [List.map_cons]; exact runsG_cons_none _ _ _ _ _ hnt
+      rw [h1, srcOf_cons]
+      have ih0 := ih' [] fuel rest
+      rw [escapeText_nil, List.nil_append] at ih0
+      simp only
+      by_cases hp : p = []
+      · subst hp
+        simp only [emitG, List.isEmpty_nil, ↓reduceIte, List.nil_append, List.length_cons, escapeText_nil,
+          List.append_assoc]
+        rw [← Nat.add_assoc, hstep, ih0]
+        cases tokenize fuel _ <;> simp
+      · have hpe : p.isEmpty = false := by cases p <;> simp_all
+        simp only [emitG, hpe, Bool.false_eq_true, ↓reduceIte, List.cons_append, List.nil_append,
+          List.length_cons, List.append_assoc]
+        rw [← Nat.add_assoc, ← Nat.add_assoc,
+          tokenize_text_step _ (escapeText p) _ (escapeText_ne_nil p hp) (escapeText_no_lt p),
+          ← List.cons_append, hstep, ih0, decode_escapeText]
+        cases tokenize fuel _ <;> simp
 
 end SycVerif.Html
